@@ -385,6 +385,8 @@ def _fwd_acked(ctx, **params):
 
 
 HARNESSES = {
+    "close-resets-stream": Harness("close-resets-stream", lambda ctx, **kw: __import__("harness.c13_channel", fromlist=["h_states"]).h_states(ctx, **kw), lambda tier: [{"pre": "closed", "event": "dcep"}], style="STEP", bounds="close() on an established channel with a symbolic stream id 0..65534 (0 included): the stream is reset with the peer before the id can be re-used, so a later message cannot surface on a new channel with that id", encoded=["aiortc.rtcsctptransport:RTCSctpTransport._data_channel_close", "aiortc.rtcsctptransport:RTCSctpTransport._transmit_reconfig"], twin="event-processed", opts={"samples": 1}),
+    "forward-tsn-keeps-reliable": Harness("forward-tsn-keeps-reliable", lambda ctx, **kw: __import__("harness.c06_partial", fromlist=["h_step_forward_tsn"]).h_step_forward_tsn(ctx, **kw), lambda tier: __import__("harness.c06_partial", fromlist=["_fwd_layouts"])._fwd_layouts(tier), style="STEP", bounds="interleavings of reliable and abandoned partially reliable fragments over consecutive TSNs with symbolic origin; which reliable fragments arrived before the FORWARD-TSN is solver-chosen: the reliable channel's message is still delivered", encoded=["aiortc.rtcsctptransport:RTCSctpTransport._receive_forward_tsn_chunk", "aiortc.rtcsctptransport:InboundStream.prune_chunks", "aiortc.rtcsctptransport:InboundStream.pop_messages"], twin=__import__("harness.c06_partial", fromlist=["HARNESSES"]).HARNESSES["step-forward-tsn"].twin, opts={"samples": 1}),
     "stray-init": Harness("stray-init", lambda ctx, **kw: __import__("harness.c05_nocrash", fromlist=["h_sctp_init_then_valid"]).h_sctp_init_then_valid(ctx, **kw), lambda tier: [{"role": r} for r in ("client", "server")], style="STEP", bounds="a duplicated / stray INIT (every field symbolic, also the peer's own initiate tag) reaching an established association, then the peer's next two messages: delivered once, in order", encoded=["aiortc.rtcsctptransport:RTCSctpTransport._receive_chunk"], twin="valid-after-init-handled", opts={"samples": 1}),
     "early-message": Harness("early-message", h_early_message, lambda tier: [{"state": st, "ordered": o} for st in ("connecting", "open", "closing") for o in (True, False)], style="STEP", bounds="one complete user message (binary or string, symbolic byte) arriving on the stream of a channel that is connecting / open / closing, ordered or unordered", encoded=["aiortc.rtcsctptransport:RTCSctpTransport._receive_data_chunk", "aiortc.rtcsctptransport:RTCSctpTransport._data_channel_receive"], twin="early-message-handled", opts={"samples": 1}),
     "interleave": Harness("interleave", h_interleave, lambda tier: [{"n": n} for n in ((2,) if tier == "quick" else (2, 3))], style="BMC over schedules", bounds="2 (quick) / 3 concurrent _send tasks on one ordered stream, every interleaving at the suspension point of the transport send; TSN and SSN origins symbolic", encoded=["aiortc.rtcsctptransport:RTCSctpTransport._send", "aiortc.rtcsctptransport:RTCSctpTransport._transmit"], stubs=["DTLS transport _send_data -> suspends once, then records the datagram"], twin="interleaved", opts={"samples": 1}),
